@@ -105,3 +105,19 @@ pub mod verif_spec {
     }
 }
 //@end
+
+//@append core/src/primitives/rectangle/points.rs
+#[cfg(kani)]
+#[allow(missing_docs, dead_code, unused)]
+impl Points {
+    /// arbitrary iterator state (for step contracts of iterators built on rectangle::Points in the main crate)
+    pub fn verif_any() -> Self {
+        Points { x: kani::any::<i32>()..kani::any::<i32>(), y: kani::any::<i32>()..kani::any::<i32>(), x_start: kani::any() }
+    }
+    /// representation invariant of rectangle::Points (the one its constructor / step contract of unit c16_rect
+    /// establish and preserve): current column in [x_start, x.end]; a non-empty row range implies a non-empty column range
+    pub fn verif_inv(&self) -> bool {
+        self.x_start <= self.x.start && self.x.start <= self.x.end && self.y.start <= self.y.end && (self.y.start == self.y.end || self.x_start < self.x.end)
+    }
+}
+//@end
